@@ -10,14 +10,16 @@ LEVEL_TEXT = ('Bounded model checking of the real cleanup pass: limits, per-clas
               'every path.')
 LEVEL_NOTE = ('Trusted: z3, the interpreter and its exact dyadic float model (replayed natively on real floats on every '
               'path), the stub store (returns the removable blobs of the class it is asked for and recomputes usage after '
-              'deletions).  Outside: the SQL that classifies blobs and orders candidates.')
+              'deletions).  The clean-real-sql job replaces the stub store by the real SQLiteStorage on the real sqlite3 library and the real '
+              'BlobManager on a model blob directory (concrete blob sizes, symbolic limits): there the SQL that classifies blobs and lists '
+              'candidates is executed, not modelled.')
 ASSUMPTIONS = [
     'db stub: get_stored_blobs(is_mine, is_network_blob) returns the not-yet-deleted removable blobs of that class in a '
     'fixed order and records its arguments; get_stored_blob_disk_usage returns fixed per-class base usage plus the sizes '
     'of blobs not yet deleted; own blobs are only reachable through is_mine=True (asserted never requested)',
     'blob sizes and usages below 2^50 bytes; limits 0..10^6 MB; between passes each class may grow by up to 2^45 bytes',
 ]
-OUTSIDE = ['the SQL queries of SQLiteStorage that compute usage and choose candidates', 'more removable blobs than the bound']
+OUTSIDE = ['the SQL queries of SQLiteStorage outside the clean-real-sql job (there they run for real, on one family of concrete scenarios)', 'more removable blobs than the bound']
 
 MB = 1024 * 1024
 
